@@ -290,6 +290,36 @@ def breaking_variants(root):
         nth_expr(lambda n: isinstance(n, ast.Attribute) and n.attr == 'heappush'), 'heapq.heapreplace')
     add(H, 'lru_variations', 'R-VARIATIONS', 'www test not anchored at the last host',
         nth_expr(lambda n: isinstance(n, ast.Compare) and 'hosts[-1]' in ast.unparse(n)), "b'h:www' in hosts")
+    add(L, 'LRUTrie.count_crawled_pages', 'R-ENUM-FILTERS', 'crawled non-pages counted',
+        nth_expr(lambda n: isinstance(n, ast.BoolOp) and 'is_crawled' in ast.unparse(n)), 'node.is_crawled()')
+    add(L, 'LRUTrie.pages_iter', 'R-ENUM-FILTERS', 'every node enumerated as page',
+        nth_expr(lambda n: isinstance(n, ast.Call) and ast.unparse(n) == 'node.is_page()'), 'True')
+    add(T, 'Traph.get_webentity_crawled_pages_iter', 'R-ENUM-FILTERS', 'uncrawled pages listed as crawled',
+        nth_expr(lambda n: isinstance(n, ast.Call) and ast.unparse(n) == 'node.is_crawled()'), 'node.is_page()')
+    add(L, 'LRUTrie.windup_lru', 'R-LRU-ASSEMBLY', 'parent stem appended instead of prepended',
+        nth_expr(lambda n: isinstance(n, ast.BinOp) and ast.unparse(n) == 'parent.stem() + lru'), 'lru + parent.stem()')
+    add(L, 'LRUTrie.dfs_iter', 'R-LRU-ASSEMBLY', 'stem prepended in the top-down walk',
+        nth_expr(lambda n: isinstance(n, ast.BinOp) and ast.unparse(n) == 'lru + node.stem()'), 'node.stem() + lru')
+    add(LS, 'LinkStore.weighted_link_nodes_iter', 'R-LINK-WALK', 'head stub weighs 0',
+        nth(lambda s: isinstance(s, ast.Assign) and isinstance(s.targets[0], ast.Subscript) and isinstance(s.value, ast.Constant)), lambda n, src: seg(src, n).replace('= 1', '= 0'))
+    add(LS, 'LinkStore.count_links', 'R-LINK-WALK', 'header blocks not subtracted',
+        nth(lambda s: isinstance(s, ast.Assign)), 'blocks = self.storage.count_blocks()')
+    add(T, 'Traph.remove_prefix_from_webentity', 'R-PREFIX-EDIT', 'owner test inverted',
+        nth_expr(lambda n: isinstance(n, ast.Compare) and ast.unparse(n) == 'node.webentity() == weid'), 'node.webentity() != weid')
+    add(T, 'Traph.move_prefix_to_webentity', 'R-PREFIX-EDIT', 'target and source swapped',
+        nth_expr(lambda n: isinstance(n, ast.Call) and isinstance(n.func, ast.Attribute) and n.func.attr == 'add_prefix_to_webentity'), 'self.add_prefix_to_webentity(prefix, weid_source)')
+    add(T, 'Traph.paginate_webentity_pages', 'R-PAGINATE', 'resume path not reset between prefixes',
+        nth(lambda s: isinstance(s, ast.Assign) and ast.unparse(s) == 'pagination_path = None', 1), 'pass')
+    add(T, 'Traph.paginate_webentity_pagelinks', 'R-PAGINATE', 'prefix loop starts at 0',
+        nth_expr(lambda n: isinstance(n, ast.Call) and ast.unparse(n) == 'range(start_i, len(prefixes))'), 'range(0, len(prefixes))')
+    add(T, 'Traph.paginate_webentity_pages', 'R-PAGINATE', 'look-ahead dropped',
+        nth_expr(lambda n: isinstance(n, ast.BinOp) and ast.unparse(n) == 'page_count + 1'), 'page_count')
+    add('traph/storage/memory.py', 'MemoryStorage.write', 'R-STORAGE-SEM', 'in-place write one block too far',
+        nth_expr(lambda n: isinstance(n, ast.Slice) and 'block_size' in ast.unparse(n)), 'block + self.block_size : block + 2 * self.block_size')
+    add('traph/storage/file.py', 'FileStorage.write', 'R-STORAGE-SEM', 'append positioned at the start',
+        nth_expr(lambda n: isinstance(n, ast.Call) and ast.unparse(n) == 'self.file.seek(0, os.SEEK_END)'), 'self.file.seek(0)')
+    add(T, 'Traph.get_webentity_parent_webentities', 'R-HIERARCHY', 'own webentity not excluded',
+        nth_expr(lambda n: isinstance(n, ast.BoolOp) and 'weid2 != weid' in ast.unparse(n)), 'weid2 and weid2 > 0')
     add(T, 'Traph.index_batch_crawl_iter', 'R-DIRTY-WRITTEN', 'crawled flag left to a conditional writer',
         nth(lambda s: call_stmt(s, 'write', 'source_node')), 'pass')
     return out
